@@ -100,22 +100,148 @@ Print Assumptions C18_view.
 (* scaled values (failures set to the lie): with at least one success they are negate * s * (w - m) for ONE s > 0 and one m,
    w = raw value of a success, = the worst successful raw value for a failure; such a map keeps the order of the objective.
    So "best scaled value" = best raw value among successes, and a failure is never strictly better than any success; it TIES
-   with the worst success (see the refuted strict reading below).  NOT proved as one theorem: "when two successes differ, the
-   first minimum of the scaled values is a success with the best raw value" (needs lmin/lmax facts about the lie; decided by
-   the searcher's overall-best oracle on every run). *)
-Theorem C18_scaled_values_affine_partial (maximize : bool) vals fails :
+   with the worst success (see the refuted strict reading below).  The link to the RAW values is proved below:
+   C18_scaled_order_is_raw_order, C18_first_min_scaled_is_best_raw, C18_cluster_min_scaled_is_best_raw and, through the
+   whole endpoint, C18_view_best_raw. *)
+Theorem C18_scaled_values_affine (maximize : bool) vals fails :
   select (map negb fails) vals <> [] ->
   exists s m lie, 0 < s /\
     lie = (if maximize then lmin (select (map negb fails) vals) else lmax (select (map negb fails) vals)) /\
     scaled_values maximize vals fails =
     map (fun vf : Q * bool => (if maximize then Qopp 1 else 1) * s * ((if snd vf then lie else fst vf) - m)) (combine vals fails).
 Proof. exact (scaled_values_affine maximize vals fails). Qed.
-Print Assumptions C18_scaled_values_affine_partial.
+Print Assumptions C18_scaled_values_affine.
 
 Theorem C18_affine_scaling_keeps_order (neg s m a b : Q) : 0 < s -> (neg == 1 \/ neg == -(1)) ->
   (neg * s * (a - m) <= neg * s * (b - m) <-> neg * a <= neg * b).
 Proof. exact (affine_order neg s m a b). Qed.
 Print Assumptions C18_affine_scaling_keeps_order.
+
+(* RAW values.  Throughout: nf = the raw values of the successful observations (in order), lie = the worst of them for the
+   objective (least when maximising, greatest when minimising), bestv = the best of them; observation t is a success when
+   fails[t] = false.  "w t" below = the raw value that stands behind scaled value t: vals[t] for a success, lie for a failure. *)
+
+(* the order of the scaled values IS the order of the objective on the raw values behind them (smaller scaled = better raw) *)
+Theorem C18_scaled_order_is_raw_order (maximize : bool) vals fails t u :
+  length fails = length vals ->
+  let nf := select (map negb fails) vals in
+  nf <> [] -> (t < length vals)%nat -> (u < length vals)%nat ->
+  let sv := scaled_values maximize vals fails in
+  let lie := if maximize then lmin nf else lmax nf in
+  let w := fun i => if nth i fails false then lie else nth i vals 0 in
+  (nth t sv 0 <= nth u sv 0 <-> if maximize then w u <= w t else w t <= w u) /\
+  (nth t sv 0 < nth u sv 0 <-> if maximize then w u < w t else w t < w u) /\
+  lmin nf <= w t <= lmax nf.
+Proof.
+  exact (fun Hl Hne Ht Hu => conj (scaled_le_iff maximize vals fails t u Hl Hne Ht Hu)
+                             (conj (scaled_lt_iff maximize vals fails t u Hl Hne Ht Hu)
+                                   (raw_behind_range maximize vals fails t Hl Hne Ht))).
+Qed.
+Print Assumptions C18_scaled_order_is_raw_order.
+
+(* overall_best_included in the user's sense.  b = the first minimum of the scaled values (the index the view returns first,
+   C18_view).  Some success has raw value bestv and every successful raw value lies between lie and bestv; the raw value
+   behind b IS bestv; if b is a failure then lie == bestv, i.e. ALL successes share one raw value (the tie of the known
+   finding C18:view:overall-best:only-failed-observations-returned-when-successes-tie-with-lie); hence, as soon as two
+   successes differ in raw value, b is a SUCCESSFUL observation with the best raw value, and the first such index (every
+   earlier success is strictly worse). *)
+Theorem C18_first_min_scaled_is_best_raw (maximize : bool) vals fails :
+  length fails = length vals ->
+  let nf := select (map negb fails) vals in
+  nf <> [] ->
+  let sv := scaled_values maximize vals fails in
+  let lie := if maximize then lmin nf else lmax nf in
+  let bestv := if maximize then lmax nf else lmin nf in
+  let b := qargmin sv in
+  (b < length vals)%nat /\
+  (exists t, (t < length vals)%nat /\ nth t fails true = false /\ nth t vals 0 == bestv) /\
+  (forall t, (t < length vals)%nat -> nth t fails true = false ->
+     if maximize then lie <= nth t vals 0 <= bestv else bestv <= nth t vals 0 <= lie) /\
+  (if nth b fails false then lie else nth b vals 0) == bestv /\
+  (nth b fails false = true ->
+     lie == bestv /\
+     forall t u, (t < length vals)%nat -> (u < length vals)%nat -> nth t fails true = false -> nth u fails true = false ->
+       nth t vals 0 == nth u vals 0) /\
+  ((exists t u, (t < length vals)%nat /\ (u < length vals)%nat /\ nth t fails true = false /\ nth u fails true = false /\
+                ~ nth t vals 0 == nth u vals 0) ->
+     nth b fails true = false /\ nth b vals 0 == bestv /\
+     forall t, (t < b)%nat -> nth t fails true = false ->
+       if maximize then nth t vals 0 < nth b vals 0 else nth b vals 0 < nth t vals 0).
+Proof. exact (first_min_scaled_is_best_raw maximize vals fails). Qed.
+Print Assumptions C18_first_min_scaled_is_best_raw.
+
+(* each_is_cluster_best in the user's sense, for ANY set P of observations (a cluster) and any index b whose scaled value is
+   the first minimum over P (what C18_view gives for the index returned for a cluster).  If b is a success: its raw value is
+   at least as good as that of every successful member, strictly better than that of every earlier successful member, and
+   strictly better than the lie when an earlier member failed.  If b is a failure: every successful member of P has raw
+   value == lie (no successful member is strictly better than the worst success overall), and no member of P precedes b. *)
+Theorem C18_cluster_min_scaled_is_best_raw (maximize : bool) vals fails (P : nat -> Prop) (b : nat) :
+  length fails = length vals ->
+  let nf := select (map negb fails) vals in
+  nf <> [] ->
+  let sv := scaled_values maximize vals fails in
+  let lie := if maximize then lmin nf else lmax nf in
+  (b < length vals)%nat ->
+  (forall t, (t < length vals)%nat -> P t -> nth b sv 0 <= nth t sv 0) ->
+  (forall t, (t < b)%nat -> P t -> nth b sv 0 < nth t sv 0) ->
+  (nth b fails true = false ->
+     (forall t, (t < length vals)%nat -> P t -> nth t fails true = false ->
+        if maximize then nth t vals 0 <= nth b vals 0 else nth b vals 0 <= nth t vals 0) /\
+     (forall t, (t < b)%nat -> P t -> nth t fails true = false ->
+        if maximize then nth t vals 0 < nth b vals 0 else nth b vals 0 < nth t vals 0) /\
+     (forall t, (t < b)%nat -> P t -> nth t fails false = true ->
+        if maximize then lie < nth b vals 0 else nth b vals 0 < lie)) /\
+  (nth b fails false = true ->
+     (forall t, (t < length vals)%nat -> P t -> nth t fails true = false -> nth t vals 0 == lie) /\
+     (forall t, (t < b)%nat -> ~ P t)).
+Proof. exact (set_min_scaled_is_best_raw maximize vals fails P b). Qed.
+Print Assumptions C18_cluster_min_scaled_is_best_raw.
+
+(* the whole endpoint in terms of RAW values (any domain, any history with at least one success, both objectives):
+   the first returned index b0, when it is a success, has a raw value at least as good as every success; it is a failure only
+   when all successes share one raw value; when two successes differ it is a success, the first one with the best raw value.
+   The index b returned for cluster c lies in cluster c; when it is a success its raw value is at least as good as that of
+   every successful member of the cluster (strictly better than the earlier ones); it is a failure only when every successful
+   member of the cluster has the worst successful raw value overall (== lie) and b is the first member of the cluster. *)
+Theorem C18_view_best_raw cs tgt points vals fails maximize k ohs :
+  all_some (map (to_one_hot cs) points) = Some ohs ->
+  length vals = length points -> length fails = length points -> (2 <= k < length points)%nat ->
+  let nf := select (map negb fails) vals in
+  nf <> [] ->
+  let sv := scaled_values maximize vals fails in
+  let spts := map (search_point cs tgt) ohs in
+  let lie := if maximize then lmin nf else lmax nf in
+  exists centres part best,
+    k_center spts (qargmin sv) k = Some (centres, part) /\
+    view cs tgt points vals fails maximize k = Some best /\
+    length best = k /\ NoDup best /\ (forall i, In i best -> (i < length points)%nat) /\
+    (let b0 := hd O best in
+     (nth b0 fails true = false ->
+        forall t, (t < length points)%nat -> nth t fails true = false ->
+          if maximize then nth t vals 0 <= nth b0 vals 0 else nth b0 vals 0 <= nth t vals 0) /\
+     (nth b0 fails false = true ->
+        forall t u, (t < length points)%nat -> (u < length points)%nat -> nth t fails true = false -> nth u fails true = false ->
+          nth t vals 0 == nth u vals 0) /\
+     ((exists t u, (t < length points)%nat /\ (u < length points)%nat /\ nth t fails true = false /\ nth u fails true = false /\
+                   ~ nth t vals 0 == nth u vals 0) ->
+        nth b0 fails true = false /\
+        forall t, (t < b0)%nat -> nth t fails true = false ->
+          if maximize then nth t vals 0 < nth b0 vals 0 else nth b0 vals 0 < nth t vals 0)) /\
+    forall c, (c < k)%nat ->
+      let b := nth c best O in
+      nth b part O = c /\
+      (nth b fails true = false ->
+         (forall t, (t < length points)%nat -> nth t part O = c -> nth t fails true = false ->
+            if maximize then nth t vals 0 <= nth b vals 0 else nth b vals 0 <= nth t vals 0) /\
+         (forall t, (t < b)%nat -> nth t part O = c -> nth t fails true = false ->
+            if maximize then nth t vals 0 < nth b vals 0 else nth b vals 0 < nth t vals 0) /\
+         (forall t, (t < b)%nat -> nth t part O = c -> nth t fails false = true ->
+            if maximize then lie < nth b vals 0 else nth b vals 0 < lie)) /\
+      (nth b fails false = true ->
+         (forall t, (t < length points)%nat -> nth t part O = c -> nth t fails true = false -> nth t vals 0 == lie) /\
+         (forall t, (t < b)%nat -> nth t part O <> c)).
+Proof. exact (view_best_raw cs tgt points vals fails maximize k ohs). Qed.
+Print Assumptions C18_view_best_raw.
 
 (* STRICT reading of "one of which is the overall best observation" (a SUCCESSFUL observation with the best raw value is
    returned) is false of the faithful model: with one success among failures every scaled value ties with the lie, the first
@@ -139,3 +265,29 @@ Example C18_example :
   view [CNum 0 4; CCat [1; 2; 5]] 2 [[0;1]; [4;2]; [1;5]; [1;1]] [5; 7; 3; 3] [false; false; false; false] true 3
     = Some [1; 0; 2]%nat.
 Proof. vm_compute. split; reflexivity. Qed.
+
+(* non-vacuity of the raw-value statements: one double in [0,4], four observations at 0, 4, 1, 3 with raw values 5, 7, 3, 4,
+   the second one FAILED (its 7 is ignored), two clusters {0, 2} and {1, 3}.  Successful raw values: [5; 3; 4].
+   Maximising: lie = 3, the best success is observation 0 (5); cluster {1, 3} returns the success 3 (4 beats the lie 3).
+   Minimising: lie = 5, the best success is observation 2 (3); cluster {1, 3} returns the success 3 (4 beats the lie 5).
+   Third instance (raw value 6 instead of 4, minimising): the only success of cluster {1, 3} IS the worst success (6 = lie), it
+   ties with the failed observation 1, which comes first and is returned: the failure clause of C18_view_best_raw is sharp.
+   The three view results are also what the real endpoint returns on these inputs. *)
+Example C18_example_raw :
+  let cs := [CNum 0 4] in let pts := [[0]; [4]; [1]; [3]] in let fails := [false; true; false; false] in
+  let vals := [5; 7; 3; 4] in
+  all_some (map (to_one_hot cs) pts) = Some pts /\
+  select (map negb fails) vals = [5; 3; 4] /\
+  (exists t u, (t < length pts)%nat /\ (u < length pts)%nat /\ nth t fails true = false /\ nth u fails true = false /\
+               ~ nth t vals 0 == nth u vals 0) /\
+  k_center (map (search_point cs 1) pts) 0 2 = Some ([0; 1]%nat, [0; 1; 0; 1]%nat) /\
+  qargmin (scaled_values true vals fails) = 0%nat /\
+  view cs 1 pts vals fails true 2 = Some [0; 3]%nat /\
+  k_center (map (search_point cs 1) pts) 2 2 = Some ([2; 1]%nat, [0; 1; 0; 1]%nat) /\
+  qargmin (scaled_values false vals fails) = 2%nat /\
+  view cs 1 pts vals fails false 2 = Some [2; 3]%nat /\
+  view cs 1 pts [5; 7; 3; 6] fails false 2 = Some [2; 1]%nat.
+Proof.
+  cbv zeta. repeat split; try (vm_compute; reflexivity).
+  exists 0%nat, 2%nat. repeat split; try (simpl; lia). intros H. vm_compute in H. discriminate.
+Qed.
